@@ -54,13 +54,21 @@ theorem toU64T2_digits (ds r : Bytes) (acc : Nat) (hd : allDigits ds = true)
     exact ih _ hd.2 hfit
 
 theorem toI64Go_digits (ds r : Bytes) (sign : Int) (start : Nat) (hd : allDigits ds = true)
-    (hfit : decFrom ds start ≤ I64_MAX) (hr : ∀ c rest, r = c :: rest → isDigit c = false) :
+    (hfit : decFrom ds start ≤ I64_MAX) (hr : ∀ c rest, r = c :: rest → isDigit c = false)
+    (hs : sign = 1 ∨ sign = -1) :
     toI64Go (ds ++ r) sign start = .ok (sign * (decFrom ds start : Int), r) := by
   have h64 : decFrom ds start ≤ U64_MAX := by simp only [I64_MAX, U64_MAX] at *; omega
   unfold toI64Go
   rw [toU64T2_digits ds r start hd h64 hr]
   simp only []
-  rw [if_neg (by omega)]
+  rcases hs with hs | hs
+  · subst hs
+    rw [if_neg (by omega), if_neg (by omega)]
+    simp
+  · subst hs
+    rw [if_pos (by omega), if_neg (by simp only [I64_MIN_ABS, I64_MAX] at *; omega)]
+    congr 2
+    omega
 
 theorem toI64T_digits (t r : Bytes) (ht : t ≠ []) (hd : allDigits t = true)
     (hfit : decVal t ≤ I64_MAX) (hr : ∀ c rest, r = c :: rest → isDigit c = false) :
@@ -71,7 +79,7 @@ theorem toI64T_digits (t r : Bytes) (ht : t ≠ []) (hd : allDigits t = true)
     simp only [allDigits, List.all_cons, Bool.and_eq_true] at hd
     have hfit' : decFrom cs (digitVal c) ≤ I64_MAX := by simpa [decVal, decFrom] using hfit
     simp only [List.cons_append, toI64T, hd.1, if_true]
-    rw [toI64Go_digits cs r 1 _ hd.2 hfit' hr]
+    rw [toI64Go_digits cs r 1 _ hd.2 hfit' hr (Or.inl rfl)]
     simp [decVal, decFrom]
 
 theorem toI64T_neg_digits (t r : Bytes) (hd : allDigits t = true)
@@ -79,7 +87,7 @@ theorem toI64T_neg_digits (t r : Bytes) (hd : allDigits t = true)
     toI64T (45 :: (t ++ r)) = .ok (-(decVal t : Int), r) := by
   have e1 : isDigit (45 : UInt8) = false := by decide
   simp only [toI64T, e1, Bool.false_eq_true, if_false, beq_self_eq_true, if_true]
-  rw [toI64Go_digits t r (-1) 0 hd (by simpa [decVal] using hfit) hr]
+  rw [toI64Go_digits t r (-1) 0 hd (by simpa [decVal] using hfit) hr (Or.inr rfl)]
   simp [decVal]
 
 theorem dot_stops (rest : Bytes) : ∀ c rest', (46 :: rest : Bytes) = c :: rest' → isDigit c = false := by
